@@ -129,7 +129,7 @@ def make_jobs(tier, seed):
     chunk = 4
     for i in range(0, len(names), chunk):
         jobs.append({'names': names[i:i + chunk], 'seed': rng.randrange(1 << 30), 'mode': 'bc',
-                     'nparams': 4 if tier == 'quick' else 12, 'lengths': LENGTHS if tier == 'thorough' else [60, 239, 240, 241, 400],
+                     'nparams': 4 if tier == 'quick' else 30, 'lengths': LENGTHS if tier == 'thorough' else [60, 239, 240, 241, 400],
                      'kinds': ['walk', 'lattice', 'gappy', 'alternating'], 'want_sample': i == 0})
     if tier == 'thorough':
         for i in range(0, len(names), chunk):
